@@ -243,13 +243,34 @@ func c05exec(c *h.Ctx, cs *h.Case) {
 			continue
 		}
 		switch tk[1] {
-		case "accept":
+		case "accept", "self":
 			m, _ := strconv.Atoi(tk[3])
 			r.mu.Lock()
 			expectEnter := !in.closed && in.entered == in.exited
 			want := in.entered + 1
 			r.mu.Unlock()
-			if !inject(i, m) {
+			handOver := inject
+			if tk[1] == "self" {
+				// the instance sends to its own node (from a goroutine of the protocol other than the handler)
+				if in.rec == nil {
+					cs.Impl = append(cs.Impl, "no-instance")
+					continue
+				}
+				handOver = func(i, m int) bool {
+					done := make(chan error, 1)
+					go func() { done <- in.rec.Tni.SendTo(in.rec.Tni.TreeNode(), &fix.M3{V: m}) }()
+					select {
+					case err := <-done:
+						if err != nil {
+							cs.Fail("self-send-failed", err.Error())
+						}
+						return true
+					case <-time.After(10 * time.Second):
+						return false
+					}
+				}
+			}
+			if !handOver(i, m) {
 				cs.Impl = append(cs.Impl, "hang")
 				cs.Fail("handover-blocked", fmt.Sprintf("handing message %d to instance %d did not return within 10 s (a handler is blocked: %s)", m, i, state(i)))
 				return
@@ -377,6 +398,9 @@ func c05gen(c *h.Ctx, yield func(*h.Case)) {
 		"c05 exit 1", "c05 exit 1", "c05 accept 0 6", "c05 exit 2", "c05 exit 0", "c05 exit 0", "c05 exit 0", "c05 exit 0"}})
 	yield(&h.Case{Class: "script-corpus", Ops: []string{
 		"c05 accept 0 1", "c05 close 0", "c05 accept 0 2", "c05 exit 0", "c05 accept 0 3", "c05 accept 1 4", "c05 exit 1"}})
+	// the instance sends to its own node while its handler is busy and a backlog exists: one more arrival
+	yield(&h.Case{Class: "script-corpus", Ops: []string{
+		"c05 accept 0 1", "c05 accept 0 2", "c05 self 0 3", "c05 accept 0 4", "c05 exit 0", "c05 exit 0", "c05 exit 0", "c05 self 0 5", "c05 exit 0", "c05 exit 0"}})
 	// a handler that stays blocked for a long time (longer than any plausible internal time limit)
 	yield(&h.Case{Class: "script-long-block", Ops: []string{"c05 accept 0 1", "c05 accept 0 2", "c05 accept 1 3", "c05 sleep 10600",
 		"c05 accept 0 4", "c05 exit 1", "c05 exit 0", "c05 exit 0", "c05 exit 0"}})
@@ -401,7 +425,12 @@ func c05gen(c *h.Ctx, yield func(*h.Case)) {
 			switch x := r.Intn(10); {
 			case x < 5:
 				m++
-				cs.Ops = append(cs.Ops, fmt.Sprintf("c05 accept %d %d", i, m))
+				if created[i] && !closed[i] && r.Intn(4) == 0 {
+					cs.Ops = append(cs.Ops, fmt.Sprintf("c05 self %d %d", i, m))
+					c.Count("op=self")
+				} else {
+					cs.Ops = append(cs.Ops, fmt.Sprintf("c05 accept %d %d", i, m))
+				}
 				created[i] = true
 				if !closed[i] {
 					if running[i] {
